@@ -109,6 +109,57 @@ def unq(t):
     return t.replace("c:", "")
 
 
+CALLEES = ["awkward_regularize_rangeslice"]
+
+
+def callee_contracts():
+    out = {}
+    for name in CALLEES:
+        fs = [f for f in KI.by_name.get(name, []) if f.get("body") is not None]
+        if fs:
+            out[name] = (REG.contract_for(fs[0]), fs[0])
+    return out
+
+
+def run_function(task):
+    """a function of src/cpu-kernels that is not a kernel-specification.yml symbol (helpers in kernel-utils.cpp)"""
+    name, opts = task
+    t0 = time.time()
+    res = {"symbol": name, "kernel": name, "obligations": [], "errors": [], "notes": [], "e": None, "impl": name,
+           "contract": None, "unit_ok": True}
+    try:
+        fs = [f for f in KI.by_name.get(name, []) if f.get("body") is not None]
+        if not fs:
+            res["errors"].append("function %s not found in src/cpu-kernels" % name)
+            return res
+        f = fs[0]
+        c = REG.contract_for(f)
+        res["contract"] = c.source
+        u, iters = vcgen.houdini(lambda act: vcgen.Unit(f, c, KI.consts, callee_contracts(), act), timeout_ms=3000)
+        if u.errors:
+            res["notes"].append("S/F: " + "; ".join(u.errors))
+            res["unit_ok"] = False
+            res["errors"].append("%s is outside the translator: %s" % (name, "; ".join(u.errors)))
+        else:
+            s = z3.Solver()
+            for h in u.init.pc:
+                s.add(h)
+            if s.check() == z3.unsat:
+                res["errors"].append("vacuous: precondition of %s is contradictory" % name)
+            n = 0
+            for ob in u.ev.obls:
+                if ob.status is None:
+                    discharge(ob)
+                if ob.meta.get("auto"):
+                    continue
+                res["obligations"].append(ob_record(name, n, ob))
+                n += 1
+    except Exception:
+        res["errors"].append("crash: " + traceback.format_exc()[-1500:])
+    res["time"] = time.time() - t0
+    return res
+
+
 def run_symbol(task):
     symbol, opts = task
     t0 = time.time()
@@ -135,7 +186,7 @@ def run_symbol(task):
         res["contract"] = c.source
         res["extents"] = sorted(c.extents)
         # ---- S / F
-        u, iters = vcgen.houdini(lambda act: vcgen.Unit(f, c, KI.consts, {}, act), timeout_ms=3000)
+        u, iters = vcgen.houdini(lambda act: vcgen.Unit(f, c, KI.consts, callee_contracts(), act), timeout_ms=3000)
         if u.errors:
             res["notes"].append("S/F: " + "; ".join(u.errors))
             res["unit_ok"] = False
@@ -206,12 +257,14 @@ def init(jobs=16):
     return KI
 
 
-def run_symbols(symbols, kinds, jobs=16):
+def run_symbols(symbols, kinds, jobs=16, functions=()):
     init(jobs)
     tasks = [(s, {"kinds": kinds}) for s in symbols]
     out = []
     with ProcessPoolExecutor(jobs) as ex:
         for r in ex.map(run_symbol, tasks, chunksize=2):
+            out.append(r)
+        for r in ex.map(run_function, [(f, {"kinds": kinds}) for f in functions]):
             out.append(r)
     return out
 
